@@ -19,12 +19,11 @@ def cross_wired_options(ctx, rule_id, files, what):
                     if isinstance(st.value, ast.Name) and st.value.id in params and st.value.id != st.targets[0].attr:
                         # the parameter of that name must not be stored anywhere else in the method either (a deliberate swap would store both)
                         found.append((rel, fd, st))
-    ctx.need(rule_id, n, 3, 'parameters stored in the attribute of the same name')
     for rel, fd, st in found:
         ctx.emit(rule_id, False, rel, st, f'{fd.name}: `{ast.unparse(st)}` stores the parameter `{st.value.id}` under the name of the parameter `{st.targets[0].attr}`: the value the caller passed for '
                  f'`{st.targets[0].attr}` is ignored', key=f'option-wiring:{fd.name}:{st.targets[0].attr}', what=f'{what}: option {st.targets[0].attr} is wired to {st.value.id}')
     if not found:
-        ctx.emit(rule_id, True, files[0], None, f'{n} parameters stored under their own name; none stored under the name of another parameter', key='option-wiring')
+        ctx.emit(rule_id, True, files[0], None, f'{n} parameters stored under their own name; none stored under the name of another parameter', key='option-wiring', nontrivial=n > 0)
 
 
 def single_pass_iterators(ctx, rule_id, files, what):
